@@ -13,7 +13,7 @@ def build_rtprops(release=False):
     return common.bin_path("rtprops", release=release)
 
 
-FUZZ_TARGETS = {"C06": ["lifecycle"], "C10": ["carc_ops"], "C11": ["cvec_ops"], "C12": ["slices_utf8"], "C13": ["int_result"], "C14": ["reprcstring"],
+FUZZ_TARGETS = {"C06": ["lifecycle"], "C10": ["carc_ops"], "C11": ["cvec_ops"], "C12": ["slices_utf8"], "C13": ["int_result", "int_result_gen"], "C14": ["reprcstring"],
                 "C15": ["callback_iter"], "C16": ["layout_views"], "C19": ["waker_ops"]}
 
 
